@@ -2,14 +2,18 @@
  * @file async_runtime_epoll.c
  * @brief Linux epoll-based async runtime implementation
  * 
- * Uses epoll for efficient I/O multiplexing and eventfd for worker completion notifications.
+ * Uses epoll for efficient I/O multiplexing and a non-blocking pipe for worker completion
+ * notifications.  Every wake-up / completion is one fixed-size record in the pipe, so records
+ * posted by several threads between two waits stay separate and keep their order.  (An eventfd
+ * is a counter: values written before the next read are ADDED, which merged two completions
+ * into one event with a wrong key.)
  */
 
 #if defined(__linux__)
 
 #include "async/async_runtime.h"
 #include <sys/epoll.h>
-#include <sys/eventfd.h>
+#include <fcntl.h>
 #include <sys/stat.h>
 #include <unistd.h>
 #include <stdlib.h>
@@ -20,7 +24,8 @@
 
 struct async_runtime_s {
     int epoll_fd;
-    int event_fd;  /* For worker completions */
+    int event_fd;  /* Read end of the notification pipe (registered with epoll) */
+    int post_fd;   /* Write end of the notification pipe (used by any thread) */
     console_type_t console_type;  /* Detected console type */
 };
 
@@ -54,19 +59,22 @@ async_runtime_t* async_runtime_init(void) {
         return NULL;
     }
     
-    /* Create eventfd for worker notifications */
-    runtime->event_fd = eventfd(0, EFD_NONBLOCK);
-    if (runtime->event_fd < 0) {
+    /* Create notification pipe for worker completions and wake-ups */
+    int notify_pipe[2];
+    if (pipe2(notify_pipe, O_NONBLOCK | O_CLOEXEC) < 0) {
         close(runtime->epoll_fd);
         free(runtime);
         return NULL;
     }
+    runtime->event_fd = notify_pipe[0];
+    runtime->post_fd = notify_pipe[1];
     
-    /* Add eventfd to epoll */
+    /* Add read end of the pipe to epoll */
     struct epoll_event ev = {0};
     ev.events = EPOLLIN;
     ev.data.fd = runtime->event_fd;
     if (epoll_ctl(runtime->epoll_fd, EPOLL_CTL_ADD, runtime->event_fd, &ev) < 0) {
+        close(runtime->post_fd);
         close(runtime->event_fd);
         close(runtime->epoll_fd);
         free(runtime);
@@ -78,6 +86,10 @@ async_runtime_t* async_runtime_init(void) {
 
 void async_runtime_deinit(async_runtime_t* runtime) {
     if (!runtime) return;
+    
+    if (runtime->post_fd >= 0) {
+        close(runtime->post_fd);
+    }
     
     if (runtime->event_fd >= 0) {
         close(runtime->event_fd);
@@ -117,10 +129,11 @@ int async_runtime_remove(async_runtime_t* runtime, socket_fd_t fd) {
 }
 
 int async_runtime_wakeup(async_runtime_t* runtime) {
-    if (!runtime || runtime->event_fd < 0) return -1;
+    if (!runtime || runtime->post_fd < 0) return -1;
     
+    /* One record per wake-up (key 0, data 1); a write of <= PIPE_BUF bytes is atomic */
     uint64_t val = 1;
-    ssize_t n = write(runtime->event_fd, &val, sizeof(val));
+    ssize_t n = write(runtime->post_fd, &val, sizeof(val));
     return (n == sizeof(val)) ? 0 : -1;
 }
 
@@ -148,18 +161,19 @@ int async_runtime_wait(async_runtime_t* runtime, io_event_t* events,
     for (int i = 0; i < result && event_count < max_events; i++) {
         /* Check if this is the eventfd */
         if (epoll_events[i].data.fd == runtime->event_fd) {
-            /* Drain eventfd and decode worker completions */
+            /* Drain the notification pipe, one record per posted completion / wake-up.
+             * Records that do not fit into events[] stay in the pipe for the next call
+             * (the pipe is level-triggered in epoll). */
             uint64_t val;
-            while (read(runtime->event_fd, &val, sizeof(val)) == sizeof(val)) {
-                if (event_count < max_events) {
-                    events[event_count].fd = -1;
-                    events[event_count].completion_key = (uintptr_t)(val >> 32);
-                    events[event_count].context = NULL;
-                    events[event_count].event_type = EVENT_READ;
-                    events[event_count].bytes_transferred = (int)(val & 0xFFFFFFFF);
-                    events[event_count].buffer = NULL;
-                    event_count++;
-                }
+            while (event_count < max_events &&
+                   read(runtime->event_fd, &val, sizeof(val)) == sizeof(val)) {
+                events[event_count].fd = -1;
+                events[event_count].completion_key = (uintptr_t)(val >> 32);
+                events[event_count].context = NULL;
+                events[event_count].event_type = EVENT_READ;
+                events[event_count].bytes_transferred = (int)(val & 0xFFFFFFFF);
+                events[event_count].buffer = NULL;
+                event_count++;
             }
         } else {
             /* Regular I/O event */
@@ -177,11 +191,11 @@ int async_runtime_wait(async_runtime_t* runtime, io_event_t* events,
 }
 
 int async_runtime_post_completion(async_runtime_t* runtime, uintptr_t completion_key, uintptr_t data) {
-    if (!runtime || runtime->event_fd < 0) return -1;
+    if (!runtime || runtime->post_fd < 0) return -1;
     
-    /* Write to eventfd to wake up epoll_wait */
+    /* Write one record to the notification pipe to wake up epoll_wait */
     uint64_t val = (((uint64_t)completion_key) << 32) | (data & 0xFFFFFFFF);
-    ssize_t n = write(runtime->event_fd, &val, sizeof(val));
+    ssize_t n = write(runtime->post_fd, &val, sizeof(val));
     
     return (n == sizeof(val)) ? 0 : -1;
 }
